@@ -521,9 +521,9 @@ func (p *Parser) parseBuffer(buf []byte, last bool) (err error) {
 			p.tmp = append(p.tmp, b)
 		case tokenSpc:
 			p.addToken(off)
-		case tokenColon:
+		case tokenColon: // a byte that ends the token and is then handled in the new mode
 			p.addToken(off)
-			p.mode = valueMap
+			off--
 		case tokenNlColon:
 			p.addToken(off)
 			p.line++
